@@ -93,6 +93,11 @@ func (p *Proc) Close() {
 func (p *Proc) roundtrip(script string) (string, error) {
 	p.seq++
 	marker := fmt.Sprintf("<<done-%d>>", p.seq)
+	if d := os.Getenv("SYMGO_LASTQ"); d != "" {
+		f, _ := os.OpenFile(fmt.Sprintf("%s/pipe-%d.smt2", d, os.Getpid()), os.O_APPEND|os.O_CREATE|os.O_WRONLY, 0o644)
+		f.WriteString(script + "\n(echo \"" + marker + "\")\n")
+		f.Close()
+	}
 	if _, err := io.WriteString(p.in, script+"\n(echo \""+marker+"\")\n"); err != nil {
 		return "", err
 	}
@@ -230,6 +235,9 @@ func (s *Session) Check(extra *Term) (Result, map[string]uint64, error) {
 	q.WriteString("(check-sat)\n")
 	sb.WriteString(q.String())
 	tq := time.Now()
+	if d := os.Getenv("SYMGO_LASTQ"); d != "" {
+		os.WriteFile(fmt.Sprintf("%s/lastq-%d.smt2", d, os.Getpid()), []byte(s.Script(extra, false)), 0o644)
+	}
 	out, err := s.P.roundtrip(sb.String())
 	if err != nil {
 		return Unknown, nil, err
